@@ -5,7 +5,7 @@
    offset is the byte-level part of C02 (Model/Casblob.v) and the disk-level part (Model/Disk.v).
    Only statements, each closed by an already proved lemma, with Print Assumptions beneath. *)
 From BR Require Import Base.Prelude Gen.Front Model.LRU Model.Disk Model.Front
-  Proofs.Front_base Proofs.Front_read Proofs.Front_examples Bridge.Bridge_Front.
+  Proofs.Front_base Proofs.Front_read Proofs.Front_mode Proofs.Front_examples Bridge.Bridge_Front.
 Open Scope Z_scope.
 
 (* C02_limit: with a non-zero read_limit L at most L bytes are delivered, whatever sizes the reader
@@ -89,6 +89,29 @@ Proof.
 Qed.
 Print Assumptions C02_empty.
 
+(* C02 across storage modes (writer mode x reader mode): the answer of every read path is the same
+   whatever storage mode the cache is RUNNING in.  The on-disk format of an entry is a property of
+   the entry (the [legacy] flag of its index item / the .v1 file name), fixed when it was written;
+   Get, GetZstd and Contains follow that flag (Model/Disk.v GetValidate; the source text of
+   availableOrTryProxy with `if item.legacy {` is pinned by Bridge_Disk), never the current mode.  So
+   a directory written under one --storage_mode is served with the same status, reported size, content
+   and length after a restart under the other ([set_mode]: same limits, other mode; [d]: ANY state). *)
+Theorem C02_cross_mode_reads :
+  forall c running_zstd d, c_proxy (fc_disk c) = false ->
+    (forall hash zstd, http_get (set_mode running_zstd c) d hash zstd = http_get c d hash zstd) /\
+    (forall hash, http_head (set_mode running_zstd c) d hash = http_head c d hash) /\
+    (forall ds zstd, batch_read (set_mode running_zstd c) d ds zstd [] = batch_read c d ds zstd []) /\
+    (forall name off limit reads, bs_read (set_mode running_zstd c) d name off limit reads = bs_read c d name off limit reads) /\
+    (forall root table, get_tree (set_mode running_zstd c) d root table = get_tree c d root table) /\
+    (forall digest, inline_read (set_mode running_zstd c) d digest = inline_read c d digest).
+Proof.
+  intros c z d H.
+  split; [intros; apply http_get_mode; exact H|]. split; [intros; apply http_head_mode; exact H|].
+  split; [intros; apply batch_read_mode; exact H|]. split; [intros; apply bs_read_mode; exact H|].
+  split; [intros; apply get_tree_mode; exact H|intros; apply inline_read_mode; exact H].
+Qed.
+Print Assumptions C02_cross_mode_reads.
+
 (* the chunk size of the send loop and the constants the model uses are the source's *)
 Theorem C02_constants_pinned :
   Gen.Front.front_maxChunkSize = Model.Front.maxChunkSize /\ Model.Front.maxChunkSize = 2097152.
@@ -101,3 +124,11 @@ Example C02_paths_example :
   run_ops (wired true 100000) store0 reads_ops = reads_expected /\
   run_ops (wired false 100000) store0 reads_ops = reads_expected.
 Proof. exact reads_served. Qed.
+
+(* non-vacuity of the cross-mode statement: two blobs written under one mode (through HTTP PUT and a
+   zstd batch entry), read through every path; restart under the other mode: same answers; a third
+   blob written there; restart back: same answers again and all three present — in both directions *)
+Example C02_paths_example_cross_mode :
+  run_ops (wired true 100000) store0 (cross_mode true false) = cross_mode_expected /\
+  run_ops (wired false 100000) store0 (cross_mode false true) = cross_mode_expected.
+Proof. exact cross_mode_served. Qed.
